@@ -510,6 +510,9 @@ func (r *Resolver) Decode(b []byte, t schemagen.TypeExpr) (*Value, []byte, error
 }
 
 func (r *Resolver) decodeBody(b []byte, c *schemagen.Comb, args []schemagen.Arg) (*Value, []byte, error) {
+	if decodeBudget--; decodeBudget < 0 { // every object counts too: deep recursive values are cheap in bytes, not in nodes
+		return nil, b, ErrBudget
+	}
 	v := &Value{Kind: "struct", Ctor: c.Name, Fields: map[string]*Value{}}
 	if len(c.Fields) == 1 && c.Fields[0].Type.Name == "?" {
 		fv, rest, err := r.Decode(b, schemagen.TypeExpr{Kind: "prim", Name: c.Name})
@@ -577,6 +580,9 @@ func (r *Resolver) decodeBody(b []byte, c *schemagen.Comb, args []schemagen.Arg)
 		}
 		var fv *Value
 		if fv, b, err = r.Decode(b, ct); err != nil {
+			if err == ErrBudget || len(err.Error()) > 400 {
+				return nil, b, err // a path of thousands of levels is no use to anyone and quadratic in memory
+			}
 			return nil, b, fmt.Errorf("%s.%s: %w", c.Name, key, err)
 		}
 		v.Fields[key] = fv
@@ -725,7 +731,7 @@ var ErrBudget = fmt.Errorf("value too large for the reference decoder")
 var decodeBudget int
 
 func (r *Resolver) DecodeTop(b []byte, c *schemagen.Comb) (*Value, []byte, error) {
-	decodeBudget = 2 << 20
+	decodeBudget = 1 << 19
 	if len(b) < 4 {
 		return nil, b, ErrShort
 	}
